@@ -3,7 +3,7 @@ package main
 // Replay of solver models on the real code (go test -overlay). Templates are registered per function family.
 
 func tryReplay(cr *checkRun, r *OblResult, sr *SiteResult, rep map[string]interface{}) (bool, string) {
-	if t := replayTemplates[r.Obl.tr.top.String()]; t != nil {
+	if t := replayTemplates[topName(r.Obl.tr)]; t != nil {
 		return t(cr, r, sr, rep)
 	}
 	return false, "no replay template for this function family; model attached in solver_output"
